@@ -180,7 +180,7 @@ def reduce_rules(chk, repo):
     sh = nf.attr(S('img'), 'shape')
     for p in returns(paths):
         want = nf.app('sum', nf.app('sum', nf.app('m:reshape', S('img'), HALFN(nf.index(sh, C(0)), fac), fac,
-                                                  HALFN(nf.index(sh, C(1)), fac), fac), C(-1)), C(1))
+                                                  HALFN(nf.index(sh, C(1)), fac), fac), axis=C(3)), axis=C(1))
         chk.ob('C20-e', 'U-axis', f.key, 'reshape to (n0//f, f, n1//f, f) and sum the two factor axes',
                p.ret == want, f'returns {fmt(p.ret)}', f.loc(p.node))
     # centroid
